@@ -87,6 +87,12 @@ def _run_one(exe, sc, d, timeout, env):
     except subprocess.TimeoutExpired:
         rc, err = "timeout", ""
     tr = parse(tp).get(sc.name)
+    if tr is not None:
+        try:
+            with open(tp, errors="replace") as f:
+                tr.raw = f.read(400000)      # kept with a violating scenario's replay file: real-time runs do not repeat exactly
+        except OSError:
+            tr.raw = ""
     return sc, tr, rc, err, time.time() - t0
 
 
